@@ -54,6 +54,7 @@ FutureImplBase<RetResult>* FutureBase<Result>::thenImpl(
     return f(std::move(copy));
   };
 
+  DISPENSO_VERIF_POINT("fut.then.tsc", &sched.outstandingTaskCount_);
   sched.outstandingTaskCount_.fetch_add(1, std::memory_order_acquire);
   auto* retImpl = createFutureImpl<RetResult>(
       std::move(func),
@@ -76,6 +77,7 @@ FutureImplBase<RetResult>* FutureBase<Result>::thenImpl(
     return f(std::move(copy));
   };
 
+  DISPENSO_VERIF_POINT("fut.then.tsc", &sched.outstandingTaskCount_);
   sched.outstandingTaskCount_.fetch_add(1, std::memory_order_acquire);
   auto* retImpl = createFutureImpl<RetResult>(
       std::move(func),
@@ -172,6 +174,7 @@ auto whenAllTuple(Invoker& invoker, Futures&&... futures)
 
   auto whenComplete = [shared]() -> TupleType {
     forEach(shared->tuple, [&shared](auto& future) {
+      DISPENSO_VERIF_POINT("whenall.count.load", shared.get());
       if (0 == shared->count.load(std::memory_order_acquire)) {
         return false;
       }
@@ -189,6 +192,7 @@ auto whenAllTuple(Invoker& invoker, Futures&&... futures)
   forEach(tuple, [shared = std::move(shared)](auto& future) {
     future.then(
         [shared](auto&&) {
+          DISPENSO_VERIF_POINT("whenall.count.fetch_sub", shared.get());
           if (shared->count.fetch_sub(1, std::memory_order_release) == 1) {
             shared->f();
           }
@@ -215,6 +219,7 @@ whenAllIterators(Invoker& invoker, InputIt first, InputIt last) {
 
   auto whenComplete = [shared]() -> VecType {
     for (auto& f : shared->vec) {
+      DISPENSO_VERIF_POINT("whenall.count.load", shared.get());
       if (0 == shared->count.load(std::memory_order_acquire)) {
         break;
       }
@@ -229,6 +234,7 @@ whenAllIterators(Invoker& invoker, InputIt first, InputIt last) {
   for (auto& s : shared->vec) {
     s.then(
         [shared](auto&&) {
+          DISPENSO_VERIF_POINT("whenall.count.fetch_sub", shared.get());
           if (shared->count.fetch_sub(1, std::memory_order_release) == 1) {
             shared->f();
           }
@@ -248,6 +254,7 @@ auto whenAnyTuple(Invoker& invoker, Futures&&... futures) -> Future<size_t> {
       std::make_shared<detail::WhenAnySharedTuple<TupleType>>(std::forward<Futures>(futures)...);
 
   auto whenComplete = [shared]() -> size_t {
+    DISPENSO_VERIF_POINT("whenany.winner.load0", shared.get());
     size_t w = shared->winner.load(std::memory_order_acquire);
     if (w != SIZE_MAX) {
       return w;
@@ -263,9 +270,11 @@ auto whenAnyTuple(Invoker& invoker, Futures&&... futures) -> Future<size_t> {
       --idx;
       future.wait();
       size_t expected = SIZE_MAX;
+      DISPENSO_VERIF_POINT("whenany.winner.cas_inline", shared.get());
       shared->winner.compare_exchange_strong(expected, idx, std::memory_order_acq_rel);
       return false; // one input resolved ⇒ winner is now set; stop iterating.
     });
+    DISPENSO_VERIF_POINT("whenany.winner.load", shared.get());
     return shared->winner.load(std::memory_order_acquire);
   };
 
@@ -280,6 +289,7 @@ auto whenAnyTuple(Invoker& invoker, Futures&&... futures) -> Future<size_t> {
     future.then(
         [shared, myIdx](auto&&) {
           size_t expected = SIZE_MAX;
+          DISPENSO_VERIF_POINT("whenany.winner.cas", shared.get());
           if (shared->winner.compare_exchange_strong(expected, myIdx, std::memory_order_acq_rel)) {
             shared->f();
           }
@@ -304,6 +314,7 @@ Future<size_t> whenAnyIterators(Invoker& invoker, InputIt first, InputIt last) {
   auto shared = std::make_shared<detail::WhenAnySharedVec<VecType>>(first, last);
 
   auto whenComplete = [shared]() -> size_t {
+    DISPENSO_VERIF_POINT("whenany.winner.load0", shared.get());
     size_t w = shared->winner.load(std::memory_order_acquire);
     if (w != SIZE_MAX) {
       return w;
@@ -318,7 +329,9 @@ Future<size_t> whenAnyIterators(Invoker& invoker, InputIt first, InputIt last) {
     // non-empty here (the empty range returned above).
     shared->vec[0].wait();
     size_t expected = SIZE_MAX;
+    DISPENSO_VERIF_POINT("whenany.winner.cas_inline", shared.get());
     shared->winner.compare_exchange_strong(expected, size_t{0}, std::memory_order_acq_rel);
+    DISPENSO_VERIF_POINT("whenany.winner.load", shared.get());
     return shared->winner.load(std::memory_order_acquire);
   };
 
@@ -330,6 +343,7 @@ Future<size_t> whenAnyIterators(Invoker& invoker, InputIt first, InputIt last) {
     s.then(
         [shared, i](auto&&) {
           size_t expected = SIZE_MAX;
+          DISPENSO_VERIF_POINT("whenany.winner.cas", shared.get());
           if (shared->winner.compare_exchange_strong(expected, i, std::memory_order_acq_rel)) {
             shared->f();
           }
